@@ -68,6 +68,11 @@ func c15Gen(r *rand.Rand, tier string) any {
 			sc.Ops = append(sc.Ops, *op)
 		}
 	}
+	if r.IntN(3) == 0 {
+		// the build before the corruption is interrupted: some records carry the mark "must
+		// re-run" and nothing else says so
+		sc.Ops = append(sc.Ops, opSpec{Op: "build", Label: label, Always: true, CrashAt: 40 + r.IntN(220)})
+	}
 	sc.Ops = append(sc.Ops, opSpec{Op: "build", Label: label})
 	sc.Mode = []string{"records", "records", "stream"}[r.IntN(3)]
 	return sc
@@ -370,6 +375,7 @@ func c15Exec(scAny any, c *simcheck.Ctx) *simcheck.Violation {
 	defer h.cleanup()
 	last := len(sc.Ops) - 1
 	final := &sc.Ops[last]
+	var interrupted []string // bodies that had started when the previous build was killed
 	for i := 0; i < last; i++ {
 		op := &sc.Ops[i]
 		if !isProcessOp(op.Op) {
@@ -385,7 +391,54 @@ func c15Exec(scAny any, c *simcheck.Ctx) *simcheck.Violation {
 		}
 		pc := h.pc
 		pc.WatchdogS = 30
+		if op.CrashAt > 0 {
+			// place the kill inside a body: run the build once to see where the bodies are,
+			// put the tree back, and run it again (same tapes) up to one of those steps
+			snap0, err := h.snapshot()
+			if err != nil {
+				return simcheck.V(simcheck.EngineError, "snapshot: %v", err)
+			}
+			var bodySteps []int
+			saved := c.Tapes
+			probe := h.buildNamed(fmt.Sprintf("op%d", i), i, op, pc, func(step int, kind, detail string) {
+				if strings.HasPrefix(kind, "body") {
+					bodySteps = append(bodySteps, step)
+				}
+			})
+			used := map[string]simrt.TapeData{}
+			for _, suffix := range []string{".sched", ".misc", ".fault", ".chunks"} {
+				used[fmt.Sprintf("op%d", i)+suffix] = c.Tapes.Get(fmt.Sprintf("op%d", i) + suffix).Used()
+			}
+			rerr := h.restore(snap0)
+			os.RemoveAll(snap0.dir)
+			if rerr != nil || procFailure(probe) != nil || len(bodySteps) == 0 {
+				c.St.Count("prefix_failed", 1)
+				return nil
+			}
+			pc.CrashAt = bodySteps[op.CrashAt%len(bodySteps)]
+			c.Tapes = simrt.NewTapeSet(0, used)
+			res := h.buildNamed(fmt.Sprintf("op%d", i), i, op, pc, nil)
+			c.Tapes = saved
+			if res.Sim.Crashed {
+				c.St.Count("interrupted_build_before_the_corruption", 1)
+				interrupted = h.unfinished(i)
+				if len(interrupted) > 0 {
+					c.St.Count("builds_killed_inside_a_body_before_the_corruption", 1)
+				}
+				continue
+			}
+			c.St.Count("prefix_failed", 1)
+			return nil
+		}
 		res := h.build(i, op, pc, nil)
+		if res.Sim.Crashed {
+			c.St.Count("interrupted_build_before_the_corruption", 1)
+			interrupted = h.unfinished(i)
+			if len(interrupted) > 0 {
+				c.St.Count("builds_killed_inside_a_body_before_the_corruption", 1)
+			}
+			continue
+		}
 		if res.Sim.Stuck {
 			v := simcheck.V("decode-hang", "building the intact project did not finish within 30 s of real time: encoding or decoding a legal value does not terminate")
 			v.Fatal = true
@@ -519,7 +572,8 @@ func c15Exec(scAny any, c *simcheck.Ctx) *simcheck.Violation {
 	for _, f := range files {
 		data := recs[f]
 		stride := 1
-		if c.Tier != "thorough" && len(data) > 120 {
+		if c.Tier != "thorough" && len(data) > 120 && !bytes.Contains(data, []byte(`"rerun":true`)) {
+			// (the record of an interrupted target is covered byte by byte: few exist)
 			stride = len(data)/120 + 1
 		}
 		start := c.Tapes.Get("stride").Intn(stride)
@@ -615,6 +669,19 @@ func c15Exec(scAny any, c *simcheck.Ctx) *simcheck.Violation {
 					v.Msg = what + ": " + v.Msg
 					v.Class = "corrupt-record-" + v.Class
 					return narrow(v, idx)
+				}
+				started := map[string]bool{}
+				for _, l := range h.startsIn(last) {
+					started[l] = true
+				}
+				inClosure := map[string]bool{}
+				for _, t := range h.p.closure(final.Label) {
+					inClosure[t.label()] = true
+				}
+				for _, l := range interrupted {
+					if inClosure[l] && !started[l] {
+						return narrow(simcheck.V("corrupt-record-unfinished-not-rerun", "%s: the previous build was killed while the body of %s was running; the build after the corruption reported success without running it again", what, l), idx)
+					}
 				}
 			}
 		}
